@@ -12,6 +12,10 @@ POSIX_RESERVED = {"if", "then", "else", "elif", "fi", "do", "done", "case", "esa
 BASH_ONLY = {"function", "select", "time", "coproc"}
 META = list(" \t\n'\"\\$`*?[]#~=%!{}()<>&;|^@:+") + ["é", " ", " ", "中", "\U0001f600", "\x7f", "\x01", "\x1b"]
 NICE = list("abzAZ09-_.,/")
+# quoting does not hide a builtin utility: sh never looks these up on PATH, however they are written
+SH_BUILTIN_NAMES = {".", "..", "hplain"} | set(". : [ alias bg break cd chdir command continue echo eval exec exit export false fg getopts "
+                                            "hash jobs kill local printf pwd read readonly return set shift test times trap true "
+                                            "type ulimit umask unalias unset wait".split())
 
 
 def hx(s):
@@ -41,6 +45,8 @@ def gen(ctx):
         ch = chr(c)
         single.append(["prog", ch, "a" + ch + "b", ch + ch])
         single.append([ch + "x", "arg"])
+        single.append(["a" + ch + "b", "arg"])          # a=b in command position is an assignment unless quoted
+        single.append(["A" + ch, ch])
     single.append(["prog", ""])
     single.append(["prog", "", "", "x"])
     single.append(["printf", "%s|", "", "x"])
@@ -109,6 +115,8 @@ def check(ctx):
     cov["trusted_base"] += ["Sh.parse is my model of the POSIX sh fragment; validated against /bin/sh (dash) on every run, not proved",
                             "String::to_string_lossy / format! of Rust std"]
     ctx.assumptions += ["program name is not an sh reserved word (known finding C19:command-is-sh-reserved-word)",
+                        "command position is exercised for program names without '/' that are not sh builtins (. : [ printf ...), "
+                        "through a PATH of links to an argv dumper",
                         "env = None form of to_cmdline_lossy (K=V prefixes are outside the property statement)",
                         "arguments are valid Unicode without NUL"]
     if not ctx.cargo_build():
@@ -116,10 +124,17 @@ def check(ctx):
     hplain = ctx.harness_bin("hplain")
     shdir = os.path.join(common.BUILD, "shbin")
     os.makedirs(os.path.join(shdir, "bin"), exist_ok=True)
-    for n in NAMES + sorted(BASH_ONLY):
+    def link(n):
+        """a program called n on the PATH the real sh is given (an argv dumper); False if no file can have that name"""
+        b = n.encode("utf-8")
+        if not b or b"/" in b or b"\0" in b or n in SH_BUILTIN_NAMES or len(b) > 200:
+            return False
         p = os.path.join(shdir, "bin", n)
         if not os.path.lexists(p):
             os.symlink(hplain, p)
+        return True
+    for n in NAMES + sorted(BASH_ONLY):
+        link(n)
     if ctx.replay:
         rp = json.load(open(ctx.replay))
         single, pipes = ([rp["argv"]] if "argv" in rp else []), ([rp["stages"]] if "stages" in rp else [])
@@ -154,7 +169,7 @@ def check(ctx):
         t = a.split()[1]
         if k == "sh":
             reqs.append(f"words {t}"); meta.append(("words", c, t))
-            if c[0] in NAMES:
+            if c[0] in NAMES or link(c[0]):
                 reqs.append(f"cmds {shdir} {t}"); meta.append(("cmds", [c], t))
         else:
             reqs.append(f"cmds {shdir} {t}"); meta.append(("cmds", c, t))
@@ -220,7 +235,7 @@ def check(ctx):
     cov["traces_validated_against_impl"] = len(cases)
     cov["distinct_nontrivial"] = len(nontrivial)
     cov["distribution"] = dist
-    cov["rule"] = ("argument vectors: every ASCII char 1..127 alone/embedded/doubled and as first char of the program name; empty "
+    cov["rule"] = ("argument vectors: every ASCII char 1..127 alone/embedded/doubled, and as first, inner and last char of the program name; empty "
                    "arguments; reserved-word program names; (thorough) every Unicode scalar value as a one-char argument; random "
                    "metacharacter-rich vectors; pipelines of 2-5 stages.  Each rendering is compared with the Lean renderer and "
                    "evaluated by the real /bin/sh (argument position: set --; command position: PATH of links to an argv dumper). "
